@@ -336,6 +336,7 @@ type tileURL struct {
 	height, level, off, width *Term
 	groups                    int
 	why                       string
+	leadSlash                 bool
 }
 
 // parseTileURL matches normalised pieces against [/]tile/<dec H>/<dec L>/(x<pad3 G>/)*<pad3 G0>[.p/<dec W>], with
@@ -365,6 +366,7 @@ func parseTileURL(pcs []piece, base *big.Int) (tileURL, bool) {
 	if !ok || (l != "/tile/" && l != "tile/") {
 		return fail("does not start with tile/")
 	}
+	u.leadSlash = l == "/tile/"
 	if u.height, ok = num("dec"); !ok {
 		return fail("height is not rendered in plain decimal")
 	}
@@ -527,6 +529,10 @@ func ruleTileAddressing(w *World, r *Run, h int64) {
 				continue
 			}
 			r.Pass("C18.a", rt+" ∘ client | tile URL follows the reference layout tile/<H>/<L>/[x<NNN>/]*<NNN>[.p/<W>]", w.pos(gd.Pos), "")
+			if w.tilePathSlash == nil {
+				w.tilePathSlash = map[bool]int{}
+			}
+			w.tilePathSlash[u.leadSlash]++
 			groupsSeen[u.groups] = true
 			// which tile is this request for?
 			var elem *Term
